@@ -1045,7 +1045,7 @@ def _mk_planning():
         P("planning_problem_list", Opt(ListT(ObjT("PlanningProblem"), 0, 3, key=lambda e: e["args"]["planning_problem_id"]), 0.1), True,
           getter="planning_problem_dict")])
     S["GeoTransformation"] = Spec("GeoTransformation", [
-        P("geo_reference", Opt(StrT("+proj=utm +zone=32", "EPSG:4326", "")), True), P("x_translation", Opt(Real(-100, 100)), True),
+        P("geo_reference", Opt(StrT("+proj=utm +zone=32", "EPSG:4326", "+proj=tmerc")), True), P("x_translation", Opt(Real(-100, 100)), True),
         P("y_translation", Opt(Real(-100, 100)), True), P("z_rotation", Opt(Angle()), True), P("scaling", Opt(Real(0.5, 2.0, big=False)), True)])
     S["Environment"] = Spec("Environment", [
         P("time", Opt(ObjT("Time")), True), P("time_of_day", Opt(EnumT("TimeOfDay")), True), P("weather", Opt(EnumT("Weather")), True),
